@@ -378,6 +378,7 @@ def run(ctx):
     model = cc.run_model(ctx, "c07", alllines, timeout=600 if ctx.quick else 3000)
     ctx.log("model done %.1fs" % (time.time() - t0))
     nd, ni = len(dlines), len(ilines)
+    have_model = not (model and model[0] == cc.NO_MODEL)
     dist = {}
     stats = dict(ok_z=0, ok_nz=0, err_z=0, err_nz=0, accept_differs=0, model_oob=0)
     incident_text = {v: {k: e for (k, _, e) in incidents[v]} for v in incidents}
@@ -419,7 +420,7 @@ def run(ctx):
         # tie: the build without zlib is the modelled code path, line by line
         on = outs["nz"][i] or "<missing>"
         canon = lambda s: "err" if s.startswith("err") else s
-        if on not in ("CRASH", "TIMEOUT", "OUT-OF-MEMORY") and canon(on) != canon(mo):
+        if have_model and on not in ("CRASH", "TIMEOUT", "OUT-OF-MEMORY") and canon(on) != canon(mo):
             ndis += 1
             if ndis <= 3:
                 ctx.tie_broken("sc_io_decode vs model (build without zlib)", "case %s: libsc %s, model %s" % (c["line"][:160], on[:120], mo[:120]))
@@ -454,7 +455,7 @@ def run(ctx):
                 bad = ("info-rejects-valid", "sc_io_decode_info rejected 12 alphabet characters %r" % bytes(t[:12]))
             if bad:
                 ctx.violation(bad[0] + ":" + v, bad[1], dict(op="info", line=ilines[k], variant=v, impl=o, model=mo, sanitizer=incident_text[v].get(i, "")))
-            elif o not in ("CRASH", "TIMEOUT") and o != mo:
+            elif have_model and o not in ("CRASH", "TIMEOUT") and o != mo:
                 ndis += 1
                 if ndis <= 3:
                     ctx.tie_broken("sc_io_decode_info vs model", "text %s: libsc (%s) %s, model %s" % (cc.hx(t)[:80], v, o, mo))
@@ -471,7 +472,7 @@ def run(ctx):
                 ctx.violation(j[0] + ":" + v, j[1] + " | case: " + c["line"][:120] + " | " + incident_text[v].get(i, "")[:300],
                               dict(op="puff", line=c["line"], src=cc.hx(c["src"]), nil=c["nil"], destlen=c["destlen"], sourcelen=c["sourcelen"], tag=c["tag"],
                                    variant=v, impl=o[:200], model=mo[:200], sanitizer=incident_text[v].get(i, "")))
-            elif o != mo:
+            elif have_model and o != mo:
                 ndis += 1
                 if ndis <= 3:
                     ctx.tie_broken("sc_puff vs model", "case %s: libsc (%s) %s, model %s" % (c["line"][:120], v, o[:100], mo[:100]))
